@@ -81,7 +81,12 @@ class Program(object):
             try:
                 import ast
                 import re as _re
-                expr = _re.sub(r'([A-Za-z_][A-Za-z0-9_]*)', lambda m: str(d.get(m.group(1), m.group(1))), v)
+                expr = v
+                for tname, tsz in (('size_t', 8), ('ssize_t', 8), ('int', 4), ('long', 8), ('char', 1),
+                                   ('uint64_t', 8), ('uint32_t', 4)):
+                    expr = _re.sub(r'sizeof\s*\(\s*%s\s*\)' % tname, str(tsz), expr)
+                expr = _re.sub(r'([A-Za-z_][A-Za-z0-9_]*)', lambda m: str(d.get(m.group(1), m.group(1))), expr)
+                expr = expr.replace('/', '//')
                 expr = _re.sub(r'(\d)[uUlL]+', r'\1', expr)
                 node = ast.parse(expr, mode='eval')
                 for n in ast.walk(node):
